@@ -770,6 +770,20 @@ fn c08(r: &Runner) {
                 break;
             }
         }
+        // OVER-LONG slices whose surplus is a run of zero bytes (16, 17, 24, 32, 48, 64 of them) in front of / behind a
+        // full-length value: longer than BYTES is not representable as a slice, whatever the surplus bytes are
+        if bits <= 1024 {
+            for pad in [9usize, 15, 16, 17, 24, 31, 32, 33, 48, 64, 65, 128] {
+                for fill in [0x00u8, 0x01, 0xff] {
+                    let mut s = vec![0u8; pad];
+                    s.extend(vec![fill; nb]);
+                    strs.push(s.clone());
+                    s.reverse();
+                    strs.push(s);
+                }
+                strs.push(vec![0u8; nb + pad]);
+            }
+        }
         // exact boundary strings: 2^bits - 1, 2^bits, 2^bits + 1 in both byte orders at lengths nb, nb+1
         let mp = pow2(bits);
         for v in [&mp - 1u32, mp.clone(), &mp + 1u32, &mp >> 1, (&mp >> 1) + 1u32] {
